@@ -65,6 +65,8 @@ type Exec struct {
 	inputs  []namedTerm
 	globals map[*ssa.Global]int
 
+	tagFacts    []*Term
+	sealedImpls map[string][]int
 	pureSeen  map[string]bool
 	pureDepth int
 	pending   []pendingFact
@@ -112,6 +114,8 @@ type Frame struct {
 	depth      int
 	label      string
 	capSites   map[*Capture]ssa.CallInstruction
+	assertsDone map[*Clause]bool
+	headNew    map[int]int
 }
 
 type loopInfo struct {
@@ -124,7 +128,7 @@ type loopInfo struct {
 
 func newExec(prog *Program, cs *Contracts) *Exec {
 	return &Exec{prog: prog, cs: cs, notes: map[string]bool{}, assumed: map[string]bool{}, names: map[string]int{},
-		typeIDs: map[string]int{}, typeOf: map[int]types.Type{}, globals: map[*ssa.Global]int{}}
+		typeIDs: map[string]int{}, typeOf: map[int]types.Type{}, globals: map[*ssa.Global]int{}, sealedImpls: map[string][]int{}}
 }
 
 func (ex *Exec) note(f string, a ...any) {
@@ -189,7 +193,68 @@ func (ex *Exec) typeID(t types.Type) int {
 	id := len(ex.typeIDs) + 1
 	ex.typeIDs[k] = id
 	ex.typeOf[id] = t
+	ex.tagFacts = append(ex.tagFacts, Eq(UF("boxedtag", SBool, IntT(int64(id))), BoolT(!pointerShaped(t))))
 	return id
+}
+
+// sealedTagFact: a value of a sealed interface type (one with an unexported method, declared in
+// the module) has a dynamic type among the implementations present in the program, or is nil.
+func (ex *Exec) sealedTagFact(t types.Type, tag *Term) *Term {
+	nt := namedIface(t)
+	if nt == nil || nt.Obj().Pkg() == nil || !strings.HasPrefix(nt.Obj().Pkg().Path(), modPath) {
+		return nil
+	}
+	it, ok := nt.Underlying().(*types.Interface)
+	if !ok {
+		return nil
+	}
+	sealed := false
+	for i := 0; i < it.NumMethods(); i++ {
+		if !it.Method(i).Exported() {
+			sealed = true
+		}
+	}
+	if !sealed {
+		return nil
+	}
+	key := types.TypeString(nt, nil)
+	impls, ok := ex.sealedImpls[key]
+	if !ok {
+		for _, T := range ex.prog.SSA.RuntimeTypes() {
+			if _, isI := T.Underlying().(*types.Interface); isI {
+				continue
+			}
+			if types.Implements(T, it) {
+				impls = append(impls, ex.typeID(T))
+			}
+		}
+		// also named types of the declaring package (and pointers to them)
+		sc := nt.Obj().Pkg().Scope()
+		for _, n := range sc.Names() {
+			tn, ok := sc.Lookup(n).(*types.TypeName)
+			if !ok {
+				continue
+			}
+			for _, T := range []types.Type{tn.Type(), types.NewPointer(tn.Type())} {
+				if _, isI := T.Underlying().(*types.Interface); isI {
+					continue
+				}
+				if types.Implements(T, it) {
+					impls = append(impls, ex.typeID(T))
+				}
+			}
+		}
+		ex.sealedImpls[key] = impls
+	}
+	alts := []*Term{Eq(tag, IntT(0))}
+	seen := map[int]bool{}
+	for _, id := range impls {
+		if !seen[id] {
+			seen[id] = true
+			alts = append(alts, Eq(tag, IntT(int64(id))))
+		}
+	}
+	return Or(alts...)
 }
 
 func (ex *Exec) globalPtr(g *ssa.Global) *Term {
@@ -404,7 +469,7 @@ const maxDepth = 6
 
 func (ex *Exec) newFrame(fn *ssa.Function, args, bindings []Val, parent *Frame) *Frame {
 	fr := &Frame{ex: ex, fn: fn, regs: map[ssa.Value]Val{}, args: args, bindings: bindings, edge: map[[2]int]*State{},
-		allocByPos: map[token.Pos]*ssa.Alloc{}, captures: map[string]*capRec{}, headSnap: map[int]*State{}, parent: parent}
+		allocByPos: map[token.Pos]*ssa.Alloc{}, captures: map[string]*capRec{}, headSnap: map[int]*State{}, parent: parent, assertsDone: map[*Clause]bool{}, headNew: map[int]int{}}
 	if parent != nil {
 		fr.depth = parent.depth + 1
 		fr.label = parent.label
